@@ -98,6 +98,18 @@ def cases(tier, seed):
     for m, k, n in itertools.product(range(1, 3), repeat=3):
         out.append({"key": f"m/masks/{m}x{k}x{n}", "grp": "m", "m": m, "k": k, "n": n})
     out.append({"key": "m/masks/3x3x3", "grp": "m", "m": 3, "k": 3, "n": 3})
+    # large dimensions around every block size a panelled / chunked kernel could plausibly use: d-1, d, d+1 for d in powers of two,
+    # 3*2^k and their small multiples up to 1024, placed in the inner, the row and the column dimension in turn (small integer entries: exact)
+    bnds = sorted({d + e for d in (8, 16, 32, 48, 64, 96, 100, 128, 192, 256, 384, 512, 576, 768, 1000, 1024) for e in (-1, 0, 1)} | {200, 300, 400, 600, 640, 800, 960})
+    if tier == "quick":
+        bnds = [d for d in bnds if d <= 1025]
+    for d in bnds:
+        out.append({"key": f"k/inner/{d}", "grp": "k", "m": 2, "k": d, "n": 1})
+        if d <= 520:
+            out.append({"key": f"k/rows/{d}", "grp": "k", "m": d, "k": 2, "n": 1})
+            out.append({"key": f"k/cols/{d}", "grp": "k", "m": 1, "k": 2, "n": d})
+    for d in (32, 64, 100, 128, 129):
+        out.append({"key": f"k/cube/{d}", "grp": "k", "m": d, "k": d, "n": d})
     # aliased operands (the same object on both sides) and non-canonical sparse storage
     for n in range(1, 5):
         out.append({"key": f"x/aliased_and_noncanonical/{n}", "grp": "x", "n": n})
@@ -314,6 +326,19 @@ def run_case(case, seed):
             Cexp = O.qmatmul(Ai, Bi).astype(float)
             nontriv += len(PATHS)
             check_product(Ai.astype(float), Bi.astype(float), Cexp, f"mask {G.mask_name(ma)} x {G.mask_name(mb)}", {"grp": "m", "ma": ma, "mb": mb})
+    elif grp == "k":
+        m, k, n = case["m"], case["k"], case["n"]
+        fill = G.Fill(seed, stream=hash_tag(case["key"]))
+        Ai = fill.ints((m, k, 4), -2, 2)
+        Bi = fill.ints((k, n, 4), -2, 2)
+        # exact reference: four integer matrix products per component via the left-regular representation
+        Cexp = np.zeros((m, n, 4), dtype=np.int64)
+        for a in range(4):
+            for b in range(4):
+                sg, c = O.TABLE[a][b]
+                Cexp[..., c] += sg * (Ai[..., a] @ Bi[..., b])
+        nontriv += len(PATHS)
+        check_product(Ai.astype(float), Bi.astype(float), Cexp.astype(float), f"{m}x{k}x{n} integer entries", {"grp": "k"})
     elif grp == "x":
         n = case["n"]
         u = lib.utils
